@@ -57,6 +57,9 @@ pub struct CoeServer {
     pub endless_segments: bool,
     /// Keep answering SDO info with "incomplete" forever.
     pub endless_fragments: bool,
+    /// Payload bytes of each further fragment in endless mode (0 = empty fragments).
+    pub endless_payload: usize,
+    pub endless_active: bool,
     pub log: Vec<RequestLog>,
     counter: u8,
     /// Segmented upload in progress: remaining data and expected toggle.
@@ -89,6 +92,8 @@ impl CoeServer {
             mutations: VecDeque::new(),
             endless_segments: false,
             endless_fragments: false,
+            endless_payload: 2,
+            endless_active: false,
             log: Vec::new(),
             counter: 0,
             seg: None,
@@ -105,6 +110,12 @@ impl CoeServer {
     }
 
     pub fn next_queued(&mut self) -> Option<Vec<u8>> {
+        if self.queued.is_empty() && self.endless_fragments && self.endless_active {
+            // A device that never stops announcing more fragments.
+            let mut b = vec![0x82, 0, 1, 0];
+            b.extend(std::iter::repeat(0x11).take(self.endless_payload));
+            return Some(self.coe(8, &b));
+        }
         self.queued.pop_front()
     }
 
@@ -241,15 +252,7 @@ impl CoeServer {
             b.extend_from_slice(&c);
             replies.push(self.coe(8, &b));
         }
-        if self.endless_fragments {
-            // Keep a supply of fragments coming.
-            for _ in 0..64 {
-                let mut b = vec![0x82, 0, 1, 0];
-                b.extend_from_slice(&[0x11, 0x22]);
-                let r = self.coe(8, &b);
-                replies.push(r);
-            }
-        }
+        self.endless_active = self.endless_fragments;
         let mut it = replies.into_iter();
         let first = it.next();
         for r in it {
